@@ -6,7 +6,9 @@ import (
 
 	"owverif.local/verif/checks/c01"
 	"owverif.local/verif/checks/c04"
+	"owverif.local/verif/checks/c05"
 	"owverif.local/verif/checks/c06"
+	"owverif.local/verif/checks/c08"
 	"owverif.local/verif/checks/c09"
 	"owverif.local/verif/checks/c10"
 	"owverif.local/verif/checks/c11"
@@ -27,7 +29,9 @@ var registry = map[string]func() *vf.Check{
 	"C02": c01.SpecC02,
 	"C03": c01.SpecC03,
 	"C04": c04.Spec,
+	"C05": c05.Spec,
 	"C06": c06.Spec,
+	"C08": c08.Spec,
 	"C09": c09.Spec,
 	"C10": c10.Spec,
 	"C11": c11.Spec,
